@@ -1,11 +1,8 @@
-import Cadence.Model.Queue
-import Cadence.Check.Queue
+import Cadence.Model.QueueRun
 import Driver.Util
 /-! driver side of engine `queue` -/
 namespace Drv.QueueE
 open Queue
-
-abbrev M := String   -- metrics are kept as their hex text
 
 def parseOp (t : String) : Option HOp :=
   let r := (t.drop 1).toString
@@ -73,59 +70,6 @@ def fmtRes : HRes → String
 
 def fmtObs1 (o : HObs) : String :=
   fmtRes o.res ++ "|" ++ (if o.evs.isEmpty then "-" else joinWith "," (o.evs.map fmtEv))
-
-def settleAll (s : St M) : St M := settle (4 * s.chan.length + 12) s
-
-def newEvents (before after : List (Ev M)) (kind : Nat) : List HEv :=
-  (after.drop before.length).map fun
-    | .enter m => .enter m true
-    | .handled tok => .handled kind (toString tok) true
-    | .released => .dropped
-
-/-- run one harness operation on the model, in the quiescent schedule -/
-def modelOp (s : St M) (fins : Nat) (op : HOp) : St M × Nat × HObs :=
-  let tr0 := s.trace
-  match op with
-  | .emit h m len =>
-    match step s (.emitTry h m) with
-    | none => (s, fins, ⟨.nohandle, []⟩)
-    | some (s1, .emitOk) =>
-      let s2 := match step s1 .emitCount with | some (x, _) => x | none => s1
-      let s3 := settleAll s2
-      (s3, fins, ⟨.ok (some len), newEvents tr0 s3.trace 0⟩)
-    | some (s1, _) => (s1, fins, ⟨.err 15, []⟩)
-  | .clone h =>
-    match step s (.clone h) with
-    | none => (s, fins, ⟨.nohandle, []⟩)
-    | some (s1, _) => (s1, fins, ⟨.ok none, []⟩)
-  | .drop h =>
-    match step s (.drop h) with
-    | none => (s, fins, ⟨.nohandle, []⟩)
-    | some (s1, _) =>
-      let s2 := settleAll s1
-      (s2, fins, ⟨.ok none, newEvents tr0 s2.trace 0⟩)
-  | .flush h => if h ∈ s.handles then (s, fins, ⟨.ok none, [.flushed]⟩) else (s, fins, ⟨.nohandle, []⟩)
-  | .stats h =>
-    if h ∈ s.handles then (s, fins, ⟨.stats s.submitted s.drained (queuedOf s.submitted s.drained) s.panics, []⟩)
-    else (s, fins, ⟨.nohandle, []⟩)
-  | .sinkStats h =>
-    if h ∈ s.handles then (s, fins, ⟨.sinkStats 70 3 50 2, []⟩) else (s, fins, ⟨.nohandle, []⟩)
-  | .fin oc kind =>
-    let o : Outcome := match oc with | .err _ => .err (fins + 1) | x => x
-    match step s (.wFinish o) with
-    | none => (s, fins, ⟨.idle, []⟩)
-    | some (s1, _) =>
-      let s2 := settleAll s1
-      (s2, fins + 1, ⟨.ok none, newEvents tr0 s2.trace kind⟩)
-
-def modelRun (cap : Option Nat) (hh : Bool) (ops : List HOp) : List HObs :=
-  let rec go (s : St M) (fins : Nat) (ops : List HOp) (acc : List HObs) : List HObs :=
-    match ops with
-    | [] => acc.reverse
-    | op :: rest =>
-      let r := modelOp s fins op
-      go r.1 r.2.1 rest (r.2.2 :: acc)
-  go (settleAll (init cap hh)) 0 ops []
 
 def isEmitRes : HRes → Bool
   | .ok (some _) | .err _ => true
